@@ -216,4 +216,113 @@ class GetHeaderValue(Contract):
         return [dict(value=v, environ=e) for v in ("abc", "$TOKEN", "$MISSING", "", "$") for e in ({"TOKEN": "secret"}, {"TOKEN": ""}, {})]
 
 
-CONTRACTS = [IntrospectRemoteSchema(), GetHeaderValue()]
+
+# ------------------------------------------------------------------------------------------ file discovery
+# `sorted concatenation of graphql files`: walk_graphql_files yields exactly the entries of the tree whose suffix is
+# one of the three extensions, each once, in glob order (whatever their names or directories are).
+from . import lib_fakes as F      # noqa: E402
+
+
+class FakeFile:
+    """an entry delivered by Path.glob: a record (path, name, stem, suffix); nothing relates the fields (over-approximation)"""
+
+
+FILE = V.REG.register(FakeFile, ["path", "name", "stem", "suffix"],
+                      build=lambda path="f", name="f", stem="f", suffix="": dict(path=path, name=name, stem=stem, suffix=suffix))
+FILE_SHAPE = Cls(FakeFile, path=Str, name=Str, stem=Str, suffix=Str)
+EXTENSIONS = (".graphql", ".graphqls", ".gql")
+
+
+def _is_schema_file(f):
+    return in_strs(V.attr_of(f, FakeFile, "suffix"), EXTENSIONS)
+
+
+WALK = SpecMap("walk_yields", lambda f: F.event_term("yield", SV(f)), keep_fn=_is_schema_file)
+
+
+class FakeDir:
+    def _glob(I, o, a, k):
+        from pyvc.interp import Unsupported
+        if list(a) != ["**/*"] or k:
+            raise Unsupported(f"Path.glob pattern {a!r}")
+        I.p.effect("glob", a[0])
+        entries = o.attrs["entries"]
+
+        def elem(I2, x):
+            I2.p.assume(FILE_SHAPE.pred(x))
+        return Obj(F.TracedSource, {"xs": V.vl(entries.t), "events": lambda r: WALK(r), "elem": elem,
+                                    "events_step": lambda x, r: z3.If(_is_schema_file(x), V.VCons(F.event_term("yield", SV(x)), WALK(r)), WALK(r))})
+    __pyvc_methods__ = {"glob": _glob}
+
+
+V.REG.register(FakeDir, [])
+
+
+class WalkGraphqlFiles(Contract):
+    props = ("C19",)
+    target = "ariadne_codegen.schema:walk_graphql_files"
+    trusted = ["pathlib: Path.glob('**/*') delivers every entry below the directory exactly once; `suffix` is the last extension of the entry's name"]
+    use_at_calls = False
+    frame_args = False
+
+    def setup(self, E):
+        entries = E.sym("entries", ListOf(FILE_SHAPE, name="glob_entries"))
+        return [Obj(FakeDir, {"entries": entries})], {}
+
+    def ensures(self, A, res):
+        entries = A["entries"] if "entries" in A else z3.Const("entries", V.Val)
+        return {"yields-exactly-the-entries-with-a-graphql-extension/each-once/in-glob-order":
+                    F.trace_term(A["__effects__"], kinds=("yield",)) == WALK(V.vl(entries))}
+
+    def on_raise(self, A, exc_cls, exc):
+        return {"does-not-raise": z3.BoolVal(False)}
+
+    def replay_custom(self, inputs):
+        return replay_walk(inputs)
+
+    def samples(self, tier):
+        return [dict(entries=[]), dict(entries=[dict(path="a/x.graphql", name="x.graphql", stem="x", suffix=".graphql"),
+                                                 dict(path="b/x.graphql", name="x.graphql", stem="x", suffix=".graphql"),
+                                                 dict(path="b/x.gql", name="x.gql", stem="x", suffix=".gql"),
+                                                 dict(path="b/y.graphqls", name="y.graphqls", stem="y", suffix=".graphqls"),
+                                                 dict(path="b/readme.txt", name="readme.txt", stem="readme", suffix=".txt"),
+                                                 dict(path="b/dir", name="dir", stem="dir", suffix="")])]
+
+
+def replay_walk(inputs):
+    """native replay: a real directory tree is built from the entries (one sub-directory per entry so that equal names can
+    coexist; the entry's name is kept when it is a usable file name ending in its suffix) and the real generator is
+    compared, as a set, with the entries carrying a graphql extension"""
+    import re
+    import shutil
+    import tempfile
+    from pathlib import Path
+    rep = dict(inputs={"entries": inputs.get("entries")}, failed=[], undetermined=[], pre_ok=True, outcome=None, error=None)
+    root = Path(tempfile.mkdtemp(prefix="walk_"))
+    try:
+        expected = set()
+        for i, e in enumerate(inputs.get("entries") or []):
+            e = e if isinstance(e, dict) else {}
+            suffix = e.get("suffix") if isinstance(e.get("suffix"), str) and re.fullmatch(r"\.[A-Za-z0-9]+", e.get("suffix") or "") else ""
+            name = e.get("name") if isinstance(e.get("name"), str) else ""
+            if not (re.fullmatch(r"[A-Za-z0-9_.-]+", name or "") and name.endswith(suffix) and Path(name).suffix == suffix):
+                name = f"f{i}{suffix}"
+            d = root / f"d{i}"
+            d.mkdir()
+            (d / name).write_text("type T%d { a: Int }" % i)
+            if suffix in EXTENSIONS:
+                expected.add(str(d / name))
+        got = [str(x) for x in SCH.walk_graphql_files(root)]
+        rep["outcome"] = {"return": sorted(os.path.relpath(g, root) for g in got)}
+        if set(got) != expected or len(got) != len(set(got)):
+            rep["failed"].append("post.yields-exactly-the-entries-with-a-graphql-extension/each-once/in-glob-order")
+            rep["missing"] = sorted(os.path.relpath(x, root) for x in expected - set(got))
+            rep["unexpected"] = sorted(os.path.relpath(x, root) for x in set(got) - expected)
+    except Exception as e:     # noqa
+        rep["error"] = f"{type(e).__name__}: {e}"
+    finally:
+        shutil.rmtree(root, ignore_errors=True)
+    return rep
+
+
+CONTRACTS = [IntrospectRemoteSchema(), GetHeaderValue(), WalkGraphqlFiles()]
